@@ -303,6 +303,20 @@ pub fn conv(s: Sc, to: ST) -> R<Sc> {
     })
 }
 
+/// the zero of a scalar type (value-initialisation)
+pub fn zero_of(st: ST) -> Sc {
+    match st {
+        ST::Bool => Sc::B(false),
+        ST::Int => Sc::I(0),
+        ST::UInt => Sc::U(0),
+        ST::Half => Sc::H(0.0),
+        ST::Float => Sc::F(0.0),
+        ST::Double => Sc::D(0.0),
+        ST::LitInt => Sc::LI(0),
+        ST::LitFloat => Sc::LF(0.0),
+    }
+}
+
 /// Literal operands adapt to the other operand (both interpreters): returns operands of one common type when at
 /// least one of them is a literal; otherwise returns them unchanged.
 pub fn adapt_literals(a: Sc, b: Sc) -> R<(Sc, Sc)> {
